@@ -7,6 +7,7 @@ import (
 	"os"
 
 	"vh/recdiff"
+	"vh/recsess"
 )
 
 func init() {
@@ -17,6 +18,7 @@ func cmdCondCases(args []string) error {
 	fs := flag.NewFlagSet("cond-cases", flag.ExitOnError)
 	casesFile := fs.String("cases", "cases.ndjson", "one case per line")
 	out := fs.String("o", "trace.ndjson", "output trace")
+	api := fs.String("api", "", "run the cases through the conditional API of a synchronised client, for this column group (int|str|uuid)")
 	_ = fs.Parse(args)
 	cf, err := os.Open(*casesFile)
 	if err != nil {
@@ -36,6 +38,28 @@ func cmdCondCases(args []string) error {
 		return err
 	}
 	dec := json.NewDecoder(cf)
+	if *api != "" {
+		dir, err := os.MkdirTemp("", "vh-sock")
+		if err != nil {
+			return err
+		}
+		defer os.RemoveAll(dir)
+		a, err := recsess.NewAPICond(dir, *api)
+		if err != nil {
+			return err
+		}
+		defer a.Close()
+		for dec.More() {
+			var c recdiff.CCase
+			if err := dec.Decode(&c); err != nil {
+				return err
+			}
+			if err := a.Run(c, func(ev map[string]interface{}) error { return enc.Encode(ev) }); err != nil {
+				return err
+			}
+		}
+		return nil
+	}
 	for dec.More() {
 		var c recdiff.CCase
 		if err := dec.Decode(&c); err != nil {
